@@ -102,10 +102,11 @@ def run(ctx):
     expect_mass = {"element": m["element"], "isotope": m["isotope"], "DT": m["DT"],
                    "ion_element": m["element"] - 2 * me, "ion_isotope": m["isotope"] - 3 * me,
                    "ion_DT": m["DT"] - me}
-    expect_charge = {"element": 0, "isotope": 0, "DT": 0, "ion_element": 2, "ion_isotope": 3, "ion_DT": 1}
+    expect_charge = {"element": 0, "isotope": 0, "DT": 0, "ion_element": 2, "ion_isotope": 3, "ion_DT": 1, "anion": -2}
+    expect_mass["anion"] = m["element"] + 2 * me
     mO = mass_sym("O")
     s_mass = fsite(ctx, "formulas.Formula.mass")
-    for kind in w.KINDS:
+    for kind in w.KINDS + ("anion",):
         a = A[kind]
         fk = mk({a: q[0], O: q[1]})
         total = q[0] * expect_mass[kind] + q[1] * mO
